@@ -786,6 +786,19 @@ pub fn reject_probes(shapes: &[Shape], picks: &[usize]) -> Vec<(String, String, 
     for (class, bad, good) in fixed {
         out.push((class.to_string(), wrap(bad.to_string()), wrap(good.to_string())));
     }
+    // the bound string is a where clause, nothing else: tokens after it must not reach the generated impl
+    for (i, inj) in [
+        "where Self: Sized { const NEEDS_TRACE: bool = false; } macro_rules! eat {($($t:tt)*)=>{}} eat!",
+        "{ const NEEDS_TRACE: bool = false; } macro_rules! eat {($($t:tt)*)=>{}} eat!",
+        "where Self: Sized {} impl<'gc> T<'gc>",
+    ]
+    .iter()
+    .enumerate()
+    {
+        let bad = format!("#[derive(Collect)]\n#[collect(no_drop, bound = \"{inj}\")]\npub struct T<'gc> {{ g: Gc<'gc, u32> }}\nfn use_it<'gc>() {{ let _ = <T<'gc> as Collect<'gc>>::NEEDS_TRACE; }}\n");
+        let good = "#[derive(Collect)]\n#[collect(no_drop, bound = \"where Self: Sized\")]\npub struct T<'gc> { g: Gc<'gc, u32> }\nfn use_it<'gc>() { let _ = <T<'gc> as Collect<'gc>>::NEEDS_TRACE; }\n".to_string();
+        out.push((format!("bound-string-carries-more-than-a-where-clause-{i}"), wrap(bad), wrap(good)));
+    }
     // an explicit bound must never switch off the 'static requirement of require_static
     for (i, attr) in ["require_static, bound = \"\"", "bound = \"\", require_static", "require_static, bound = \"where u8: Copy\""].iter().enumerate() {
         let bad = format!("#[derive(Collect)]\n#[collect({attr})]\npub struct T<'a> {{ g: Gc<'a, u32> }}\nfn use_it<'gc>() {{ let _ = <T<'gc> as Collect<'gc>>::NEEDS_TRACE; }}\n");
